@@ -111,6 +111,14 @@ def ill_conditioned(sd, env, a):
 def fin(v): 
     return mp.isfinite(v) if not isinstance(v, list) else all(fin(x) for x in v)
 
+def fn_latex_name(f):
+    """how a function called <display_latex> is written in LaTeX by SymPy's own convention (recognised names get a
+    backslash, single letters stay, longer names go into \\operatorname{}, subscripts are braced) - computed with SymPy's
+    helper, not with the repository's printer"""
+    from sympy.printing.latex import LatexPrinter
+    return LatexPrinter()._hprint_Function(f.display_latex)  # pylint: disable=protected-access
+
+
 def missing_symbols(expr, rendering, printer):
     """'symbols appear under their display names': every free symbol of the expression, printed on its own, occurs in the
     rendering (substring test: deliberately weak, the value comparison does the rest)"""
@@ -129,6 +137,18 @@ def missing_symbols(expr, rendering, printer):
             continue
         if nm and nm not in rendering:
             out.append((nm, sym))
+    # applied library functions: the call must show the function's display name
+    try:
+        for fa in expr.atoms(AppliedUndef):
+            f = fa.func
+            if not isinstance(f, DimensionSymbol):
+                continue
+            is_latex = getattr(printer, "__name__", "") == "latex_str"
+            want = fn_latex_name(f) if is_latex else f.display_name + "("
+            if want and want not in rendering:
+                return ["function " + want]
+    except Exception:  # pylint: disable=broad-except
+        pass
     if not out:
         return []
     # a symbol that cancels out of the value (rho / (35000 * rho)) may legitimately vanish from a rendering: only symbols the
@@ -205,7 +225,7 @@ def latex_env(expr, env):
             lenv[b.display_latex if isinstance(b, DimensionSymbol) else str(b)] = env[nm]
         if isinstance(node, AppliedUndef):
             f=node.func
-            if isinstance(f, DimensionSymbol): fn[f.display_latex]=f.display_name
+            if isinstance(f, DimensionSymbol): fn[fn_latex_name(f)]=f.display_name
             else: fn[f.__name__]=f.__name__
     return lenv, fn
 
@@ -304,7 +324,13 @@ def make_generator(rnd):
     """canonical (auto-evaluated) expression trees over library symbols"""
     from symplyphysics import Symbol
     from sympy import Rational, sqrt, sin, cos, exp, log, Abs, tan, sinh, atan
+    from symplyphysics import Function
     syms = [Symbol(n) for n in ["a", "b", "c", "x_1", "y", "T_lab", "rho"]]
+    # library functions, some with display names that SymPy's printers know as special functions (beta, gamma, zeta, euler,
+    # Max): they are undefined functions and must be printed as calls of their display name
+    funs = [Function(n, [syms[0]], **kw) for n, kw in [("f", {}), ("Phi", {}), ("N_0", {}), ("beta", {}), ("gamma", {}), ("zeta", {}),
+                                                        ("euler", {}), ("Max", {}), ("u", {"display_latex": "\\mathbf{u}"})]]
+    funs2 = [Function(n, [syms[0], syms[1]]) for n in ("g", "beta", "psi")]
 
     def gen(d):
         k = rnd.random()
@@ -314,8 +340,10 @@ def make_generator(rnd):
                 return rnd.choice(syms)
             if k2 < 0.8:
                 return sympy.Integer(rnd.choice([-3, -2, -1, 2, 3, 5, 10]))
-            if k2 < 0.9:
+            if k2 < 0.88:
                 return Rational(rnd.choice([-3, -1, 1, 2, 5]), rnd.choice([2, 3, 4, 7]))
+            if k2 < 0.93:
+                return rnd.choice([sympy.pi, sqrt(2), sympy.E, sqrt(3) / 2])  # irrational constants: number-only sums 1 + sqrt(2)
             return sympy.Float(rnd.choice([0.5, -1.25, 2.405, 1e-3, 3.5e4, -3.5e-8]))
         if k < 0.45:
             return gen(d - 1) + gen(d - 1)
@@ -329,6 +357,9 @@ def make_generator(rnd):
             e = rnd.choice([2, 3, -1, -2, Rational(1, 2), Rational(-1, 2), Rational(3, 2), Rational(1, 3), Rational(-2, 3), rnd.choice(syms), -rnd.choice(syms),
                             rnd.choice(syms) + 1, 1 / rnd.choice(syms), 1 / sqrt(rnd.choice(syms)), Rational(1, 4)])
             return gen(d - 1) ** e
+        if rnd.random() < 0.25:
+            f = rnd.choice(funs)
+            return f(gen(d - 1)) if rnd.random() < 0.7 else rnd.choice(funs2)(gen(d - 1), rnd.choice(syms))
         f = rnd.choice([sin, cos, exp, log, Abs, sqrt, tan, sinh, atan])
         if f is log and rnd.random() < 0.3:
             return log(gen(d - 1), rnd.choice([2, 10]))
